@@ -3,6 +3,7 @@
 #include <bspline/integration/numerical.h>
 
 #include <cmath>
+#include <cstring>
 
 #include "lib.h"
 using namespace vf;
@@ -100,6 +101,14 @@ static void cases(Harness &H, const char *tn, const std::string &d0, const Grid<
           ana = W::template analytic<oa, ob>(sa, sb);
         });
         if (oc.threw()) { H.fail("threw", oc.str()); H.end(); continue; }
+        if constexpr (oa == ob) {
+          if (a == b && pa == pb) {  // the same object as both arguments must give the same number as two equal objects
+            T self = bspline::integration::integrate<n>([](const T &x) { return W::f(x); }, sa, sa);
+            T two = bspline::integration::integrate<n>([](const T &x) { return W::f(x); }, sa, Spline<T, oa>(sa));
+            if (std::memcmp(&self, &two, std::is_same_v<T, long double> ? 10 : sizeof(T)) != 0) H.fail("same-object", "integrate(f, a, a) differs from integrate(f, a, copy of a)");
+            H.cls("same-object");
+          }
+        }
         mpq_class qn = ex<T>(num), qa = ex<T>(ana);
         if (!common) {
           if (qn != 0) H.fail("nocommon", "numerical integral " + std::to_string((double)num) + " without a common interval");
